@@ -290,6 +290,7 @@ PROPS["C03"] = dict(
 # the parallel parts of C02 / C05 ride on the same engine
 PROPS["C02"]["engines"] = PROPS["C02"]["engines"] + PAR_ENGINES + [dict(name="parstress")]
 PROPS["C03"]["engines"] = PROPS["C03"]["engines"] + [dict(name="parstress")]
+PROPS["C04"]["engines"] = PROPS["C04"]["engines"] + [dict(name="parstress")]
 PROPS["C14"]["engines"] = PROPS["C14"]["engines"] + [PAR_ENGINES[0]]
 PROPS["C14"]["trivial_tags"] = PROPS["C14"]["trivial_tags"] + PAR_TRIVIAL
 PROPS["C05"]["engines"] = PROPS["C05"]["engines"] + [PAR_ENGINES[2]]
